@@ -97,10 +97,18 @@ pub struct Opts {
     pub allow_print: bool,
     /// universal definer stanza present: `@x.gn` is defined on every named node
     pub universal: bool,
+    /// record every capture of every stanza in an attribute of a fresh node (C03 probes)
+    pub probe: bool,
+    /// emphasise scoped variables: links between captured nodes, nested scopes `@a.link.gn`, inherited reads
+    pub scoped_heavy: bool,
 }
 
 pub struct Program {
     pub text: String,
+    /// everything before the stanzas (globals, inherit, shorthands)
+    pub header: String,
+    /// the stanzas, in file order (`text = header + stanzas.concat()`)
+    pub stanzas: Vec<String>,
     pub globals: Vec<(String, bool)>, // (name, list-typed)
     pub stanza_count: usize,
     pub has_fault: bool,
@@ -715,9 +723,17 @@ pub fn gen_program(r: &mut Rng, pool: &[Pattern], opts: &Opts) -> Program {
         }
     }
     let universal = opts.universal;
+    let header = text.clone();
+    let mut stanzas: Vec<String> = Vec::new();
     if universal {
         g.feature("universal-definer");
-        text.push_str("(_) @any {\n  node @any.gn\n}\n");
+        stanzas.push("(_) @any {\n  node @any.gn\n}\n".to_string());
+    }
+    if opts.scoped_heavy {
+        g.feature("scoped-heavy");
+        // every identifier links to its parent-most enclosing statement-ish node through captures of other stanzas
+        stanzas.push("(identifier) @id {\n  let @id.val = (source-text @id)\n  node @id.def\n}\n".to_string());
+        stanzas.push("(call function: (_) @f) @c {\n  let @c.link = @f\n}\n".to_string());
     }
     let n_stanzas = g.r.range(1, opts.max_stanzas.max(1));
     for _ in 0..n_stanzas {
@@ -732,12 +748,31 @@ pub fn gen_program(r: &mut Rng, pool: &[Pattern], opts: &Opts) -> Program {
         for _ in 0..n {
             body.push_str(&g.stmt(3, 1));
         }
+        if g.opts.probe {
+            for (i, c) in g.captures.clone().iter().enumerate() {
+                let cap = g.use_capture(&c.0);
+                body.push_str(&format!("  node probe_{}\n  attr (probe_{}) cap_{} = {}\n", i, i, c.0.replace('-', "_"), cap));
+            }
+        }
+        if g.opts.scoped_heavy && g.r.chance(1, 2) {
+            if let Some(s) = g.syn_expr(false) {
+                // reads through another stanza's definitions: own value (inherited from ancestors), nested scope
+                let which = g.r.below(3);
+                body.push_str(&match which {
+                    0 => format!("  node sh_a\n  attr (sh_a) inherited = {}.val\n", s),
+                    1 => format!("  node sh_b\n  edge sh_b -> {}.def\n", s),
+                    _ => format!("  node sh_c\n  attr (sh_c) linked = (node-type {}.link)\n", s),
+                });
+            }
+        }
         // the unused-capture rule: mention every capture not starting with `_`
         let unused: Vec<String> = g.captures.iter().map(|c| c.0.clone()).filter(|c| !c.starts_with('_') && !g.used_captures.contains(c)).collect();
         for (i, c) in unused.iter().enumerate() {
             body.push_str(&format!("  let u_{} = @{}\n", i, c));
         }
-        text.push_str(&format!("{} {{\n{}}}\n", p.text, body));
+        stanzas.push(format!("{} {{\n{}}}\n", p.text, body));
     }
-    Program { text, globals: globals_out, stanza_count: n_stanzas + if universal { 1 } else { 0 }, has_fault: g.has_fault, features: g.features }
+    let text = format!("{}{}", header, stanzas.concat());
+    let stanza_count = stanzas.len();
+    Program { text, header, stanzas, globals: globals_out, stanza_count, has_fault: g.has_fault, features: g.features }
 }
